@@ -1283,7 +1283,11 @@ namespace vw
                         break;
                     const std::size_t idx = static_cast<std::size_t>(h.a);
                     G& grid = *main.grid;
+                    // geometry from the model; "the neighbour's own status" is what the grid itself reports for
+                    // that node (the composition of node statuses is C17's subject, not C07's)
                     std::vector<MNeighbor> model = model_neighbors(gs, statuses, idx);
+                    for (auto& mn : model)
+                        mn.status = static_cast<int>(grid.nodes_status(mn.idx));
                     std::vector<MNeighbor> got;
                     std::string bad;
                     ++C["p.queries"];
